@@ -1,13 +1,13 @@
 SPECIFICATION GSpec
 VIEW GView
 CONSTANTS
-  Names = {"a", "b"}
+  Names = {"a", "b", "c"}
   IntVals <- IV_small
-  Specials = {"none", "ref"}
+  Specials = {"none", "ref", "zz", "numstr", "mem"}
   DispNames = {"", "x"}
   MaxPieces = 2
   MaxExt = 1
   MaxDepth = 2
   AsImpl = {}
-  Families = {"build", "look", "cmp", "arith", "conv", "mut", "eqe"}
+  Families = {"build"}
 CHECK_DEADLOCK FALSE
